@@ -132,9 +132,8 @@ std::ostream& function_t::print(std::ostream& os) const
 std::ostream& variable_t::print(std::ostream& os) const
 {
     string type = uid.get_type().declaration();
-    if (uid.get_type().is_array()) {
-        auto i = type.find('[');
-        assert(i != std::string::npos);
+    // the dimensions of an array follow the name; an array type given by a typedef name has none in its text
+    if (auto i = type.find('['); uid.get_type().is_array() && i != std::string::npos) {
         os << type.substr(0, i) << ' ' << uid.get_name() << type.substr(i, type.length() - i);
     } else {
         os << type << " " << uid.get_name();
